@@ -13,7 +13,27 @@ int main(int argc, char **argv){
   int d = g.dims, outs = g.outputs;
   SymModel model(outs, 1000, -1.0, 1.0, g.family != "wavelet");   // wavelet coefficients come from GMRES: values stay concrete there
   // ---- history
-  if (history == 3){
+  if (history == 7){
+    // a point set that is closed under REGULAR parents but misses a STEP-parent (rules with two parents per direction), delivered in one batch
+    if (!grid.isLocalPolynomial()){ fpsym_finish(); return 0; }
+    RuleLocal::erule r = RuleLocal::getEffectiveRule(grid.getOrder(), grid.getRule());
+    const int *idx = grid.getPointsIndexes(); int np = grid.getNumPoints();
+    std::vector<std::vector<int>> P(np); for (int i=0;i<np;i++) P[i] = std::vector<int>(idx + (size_t) i * d, idx + (size_t) (i + 1) * d);
+    auto level = [&](const std::vector<int> &p){ int l = 0; for (int j=0;j<d;j++) l += lpLevel(r, p[j]); return l; };
+    // is a a regular ancestor-or-self of q (coordinate-wise regular-parent chains)?
+    auto regAnc = [&](const std::vector<int> &a, const std::vector<int> &q){ for (int j=0;j<d;j++){ int c = q[j]; bool hit = false; while (c >= 0){ if (c == a[j]){ hit = true; break; } c = lpParent(r, c, false); } if (!hit) return false; } return true; };
+    int victim = -1, orphan = -1;
+    for (int i=np-1;i>=0 && victim < 0;i--){ if (level(P[i]) < 2) continue;
+      for (int q=0;q<np && victim < 0;q++) for (int j=0;j<d;j++){ int sp = lpParent(r, P[q][j], true); if (sp < 0) continue; std::vector<int> t = P[q]; t[j] = sp; if (t == P[i] && !regAnc(P[i], P[q])){ victim = i; orphan = q; break; } } }
+    fpsym_note("victim_point", victim); fpsym_note("orphan_point", orphan);
+    if (victim < 0){ fpsym_finish(); return 0; }     // the rule has no step-parents (or the grid is too shallow): nothing to test
+    std::vector<double> all = grid.getPoints(), sub;
+    for (int i=0;i<np;i++) if (!regAnc(P[victim], P[i])) sub.insert(sub.end(), all.begin() + (size_t) i * d, all.begin() + (size_t) (i + 1) * d);
+    GridSpec g0 = g; g0.depth = 0; makeGrid(grid, g0);
+    grid.beginConstruction();
+    grid.loadConstructedPoints(sub, model.values(sub, d));
+    fpsym_note("subset_points", (long) sub.size() / d);
+  } else if (history == 3){
     grid.beginConstruction();
     for (int round = 0; round < 2; round++){
       std::vector<double> cand = (grid.isLocalPolynomial() || grid.isWavelet()) ? grid.getCandidateConstructionPoints(0.0, refine_fds, -1, g.ll) : grid.getCandidateConstructionPoints(type_iptotal, 0, g.ll);
